@@ -80,6 +80,15 @@ func errClass(err error) string {
 
 var errBranch = errors.New("branch error")
 
+// forkName decodes a name token: "~" is the empty name, "+" stands for a space (tokens cannot hold either).
+// The decoding is injective, so two different tokens are two different fork names.
+func forkName(tok string) string {
+	if tok == "~" {
+		return ""
+	}
+	return strings.ReplaceAll(tok, "+", " ")
+}
+
 func impl(ops []string) []string {
 	var w *world
 	outs := make([]string, len(ops))
@@ -110,7 +119,7 @@ func impl(ops []string) []string {
 				if !ok || w.broken {
 					return
 				}
-				h := cstate.NewHardFork(f[1], r)
+				h := cstate.NewHardFork(forkName(f[1]), r)
 				if _, err := w.sctx.InsertTrieNode(h.GetKey(), h); err != nil {
 					outs[i] = "error"
 					return
@@ -120,14 +129,14 @@ func impl(ops []string) []string {
 				if w.broken {
 					return
 				}
-				h := cstate.NewHardFork(f[1], 0)
+				h := cstate.NewHardFork(forkName(f[1]), 0)
 				if _, err := w.sctx.InsertTrieNode(h.GetKey(), &raw{[]byte{0xc3}}); err != nil {
 					outs[i] = "error"
 					return
 				}
 				outs[i] = "ok"
 			case f[0] == "round" && len(f) == 2:
-				r, err := cstate.GetRoundByName(w.sctx, f[1])
+				r, err := cstate.GetRoundByName(w.sctx, forkName(f[1]))
 				outs[i] = fmt.Sprintf("round %d %s", r, errClass(err))
 			case f[0] == "with" && len(f) == 5:
 				br, ok := parseInt(f[2])
@@ -136,7 +145,7 @@ func impl(ops []string) []string {
 				}
 				w.blk.Round = br
 				ran := ""
-				err := cstate.WithActivation(w.sctx, f[1], func() error {
+				err := cstate.WithActivation(w.sctx, forkName(f[1]), func() error {
 					ran += "before"
 					if f[3] == "err" {
 						return errBranch
@@ -169,7 +178,12 @@ func impl(ops []string) []string {
 	return outs
 }
 
-var names = []string{"demeter", "electra", "apollo", "x", "hardfork:demeter", "ärtemis", "a-very-long-fork-name-0123456789"}
+// fork names in several spellings: letter-case variants, with/without spaces, prefixes of each other, the empty name,
+// a name that contains the key prefix, non-ASCII with case variants.
+var names = []string{"demeter", "Demeter", "DEMETER", "electra", "Electra", "apollo", "Apollo", "apol", "apollo2", "x", "X",
+	"~", "a+b", "ab", "A+B", "a+", "hardfork:demeter", "ärtemis", "ÄRTEMIS", "a-very-long-fork-name-0123456789"}
+
+var extremes = []int64{math.MinInt64, math.MinInt64 + 1, -1, 0, 1, math.MaxInt64 - 1, math.MaxInt64, 1<<53 + 1, -(1 << 62), 1 << 62}
 
 func gen(r *rand.Rand, thorough bool, i int) []string {
 	n := 5 + r.Intn(25)
@@ -183,16 +197,25 @@ func gen(r *rand.Rand, thorough bool, i int) []string {
 	recorded := map[string]int64{}
 	pickRound := func() int64 {
 		switch r.Intn(8) {
-		case 0:
-			return []int64{0, 1, -1, math.MaxInt64, math.MaxInt64 - 1, math.MinInt64, 1<<53 + 1}[r.Intn(7)]
+		case 0, 7: // the whole int64 range, incl. pairs more than 2^63 apart (a comparison must not become a subtraction)
+			return extremes[r.Intn(len(extremes))]
 		case 1:
 			return int64(r.Intn(5))
 		default:
 			return int64(r.Intn(1000))
 		}
 	}
+	// most cases work on a small family of names so that spellings of one another meet in one state
+	fam := names
+	if r.Intn(4) != 0 {
+		st := r.Intn(len(names))
+		fam = nil
+		for j := 0; j < 4; j++ {
+			fam = append(fam, names[(st+j)%len(names)])
+		}
+	}
 	for k := 0; k < n; k++ {
-		name := names[r.Intn(len(names))]
+		name := fam[r.Intn(len(fam))]
 		switch x := r.Intn(100); {
 		case x < 18:
 			rr := pickRound()
@@ -205,10 +228,10 @@ func gen(r *rand.Rand, thorough bool, i int) []string {
 			ops = append(ops, "round "+name)
 		case x < 97:
 			if len(recorded) > 0 && r.Intn(5) < 3 { // mostly ask about forks that are recorded
-				k := r.Intn(len(names))
-				for j := 0; j < len(names); j++ {
-					if _, ok := recorded[names[(k+j)%len(names)]]; ok {
-						name = names[(k+j)%len(names)]
+				k := r.Intn(len(fam))
+				for j := 0; j < len(fam); j++ {
+					if _, ok := recorded[fam[(k+j)%len(fam)]]; ok {
+						name = fam[(k+j)%len(fam)]
 						break
 					}
 				}
@@ -268,6 +291,24 @@ func oracle(ops, outs []string) *corr.Violation {
 		case "junk":
 			junk[f[1]] = true
 			delete(rec, f[1])
+		case "round":
+			// GetRoundByName answers with this name's own record (math.MaxInt64 + value-not-present when never recorded)
+			if broken || junk[f[1]] {
+				continue
+			}
+			want := fmt.Sprintf("round %d value-not-present", int64(math.MaxInt64))
+			if r, ok := rec[f[1]]; ok {
+				want = fmt.Sprintf("round %d ok", r)
+			}
+			if outs[i] != want {
+				sig := "round-by-name"
+				for other, or := range rec {
+					if other != f[1] && outs[i] == fmt.Sprintf("round %d ok", or) {
+						sig = "fork-record-shared-between-names"
+					}
+				}
+				mk(sig, fmt.Sprintf("op %d %q answered %q, this name's own record gives %q", i, op, outs[i], want))
+			}
 		case "with":
 			if broken || junk[f[1]] {
 				continue
@@ -284,7 +325,26 @@ func oracle(ops, outs []string) *corr.Violation {
 				continue
 			}
 			if g[0] != want {
+				// does the record of ANOTHER name explain what ran? then the two names share a record
+				shared := ""
+				for other, or := range rec {
+					if other == f[1] {
+						continue
+					}
+					ow := "before"
+					if br >= or {
+						ow = "after"
+					}
+					if ow == g[0] {
+						shared = other
+						if strings.EqualFold(forkName(other), forkName(f[1])) {
+							break
+						}
+					}
+				}
 				switch {
+				case shared != "" && !(!isRec && br == math.MaxInt64):
+					mk("fork-record-shared-between-names", fmt.Sprintf("op %d %q: %q ran, which is what the record of the OTHER name %q (round %d) gives; name %q itself: recorded=%v round=%d, the property says %q", i, op, g[0], shared, rec[shared], f[1], isRec, r, want))
 				case !isRec && br == math.MaxInt64 && g[0] == "after":
 					mk("unrecorded-fork-at-maxint64-round", fmt.Sprintf("op %d %q: fork %q was never recorded, block round %d: %q ran (the property: pre-fork rules)", i, op, f[1], br, g[0]))
 				case !isRec:
@@ -318,6 +378,9 @@ func main() {
 			{"new", "with demeter 9223372036854775807 ok ok", "with demeter 9223372036854775806 ok ok", "round demeter"}, // unrecorded at MaxInt64 (known finding)
 			{"new", "record demeter 100", "with demeter 99 ok err", "with demeter 100 ok err", "with demeter 101 err ok", "round demeter", "with electra 100 ok ok"},
 			{"newbroken", "with demeter 5 ok ok", "round demeter"},
+			{"new", "record Electra 100", "with Electra 99 ok ok", "with Electra 100 ok ok", "with electra 100 ok ok", "with electra 150 ok ok", "round electra"}, // seeded C43-r2-2
+			{"new", "record Apollo 50", "record apollo 500", "with Apollo 100 ok ok", "with apollo 100 ok ok", "round Apollo", "record ~ 7", "with ~ 7 ok ok", "with a+b 7 ok ok", "record a+b 9", "with ab 9 ok ok"},
+			{"new", "record x -9223372036854775808", "with x 9223372036854775807 ok ok", "record y 9223372036854775807", "with y -9223372036854775808 ok ok", "with y -1 ok ok"},
 			{"new", "junk demeter", "with demeter 5 ok err", "with demeter 9223372036854775807 ok err", "round demeter"},
 			{"new", "record x -9223372036854775808", "with x -9223372036854775808 ok ok", "record y 9223372036854775807", "with y 9223372036854775806 ok ok", "with y 9223372036854775807 ok ok"},
 		},
